@@ -22,6 +22,18 @@ async fn witness(net: &Net) -> Case {
     r.case("C11Case", "witness", f, json!({}))
 }
 
+/// two peers delete the same row on the same day: the second deletion record never reaches everybody
+async fn double_delete(net: &Net) -> Case {
+    let mut r = Runner::new(net, 2).await;
+    let t = T0 + 4000;
+    r.exec(Op::Create { p: 0, x: 1, t }).await;
+    r.exec(Op::Pull { dst: 1, src: 0, t: t + 1 }).await;
+    r.exec(Op::Delete { p: 0, x: 1, t: t + 1000 }).await;
+    r.exec(Op::Delete { p: 1, x: 1, t: t + 2000 }).await;
+    let f = r.settle(t + 5000, 5).await;
+    r.case("C11Case", "double_delete", f, json!({}))
+}
+
 /// one create + one delete, then a generated order of directed pulls over 3 peers
 async fn order_case(net: &Net, rng: &mut Rng, len: usize, same_day: bool) -> Case {
     let mut r = Runner::new(net, 3).await;
@@ -72,6 +84,7 @@ async fn main() {
     let mut rng = Rng::from_env();
     let net = Net::start(4, MODEL, work_root("C11")).await;
     out.push(witness(&net).await);
+    out.push(double_delete(&net).await);
     for i in 0..scale(24, 400) {
         let mut r = rng.fork();
         let len = 1 + (i % 6);
